@@ -1,6 +1,7 @@
 (* C04 (handler level) -- who is named in the culprit list of a handler-detected abort.
-   Model: Model/Handler.v.  (The system-level statement about equivocation -- the view hash is compared only
-   in finalize -- is in C04_equiv / C06; here: single handler, arbitrary history.)
+   Model: Model/Handler.v.  (Model of the handler after the D7 repair: the attached view digest is compared before a
+   message is processed.  The system-level statement about equivocation is in C04_equiv / C06; here: single
+   handler, arbitrary history.)
    Only statements, each closed by [exact] of a lemma proved in Proofs/HandlerProofs.v. *)
 From Coq Require Import List NArith ZArith Bool Arith Lia.
 From MPS Require Import Model.Handler Proofs.HandlerProofs.
@@ -16,8 +17,10 @@ Proof. exact abort_notice_attribution. Qed.
 Print Assumptions C04_abort_notice_attribution.
 
 (* A verification abort names exactly one party j <> self, and j is the sender of a message m0 that is
-   stored in the handler's queues and is bad: rejected by the round ([m_valid m0 = false]) or of a kind the
-   round does not expect (broadcast to a non-broadcast round / p2p to a round without p2p content).
+   stored in the handler's queues, was sent under OUR broadcast view ([same_view]: its attached digest equals our
+   digest of the previous round's broadcasts, if we have one), and is bad: rejected by the round
+   ([m_valid m0 = false]) or of a kind the round does not expect (broadcast to a non-broadcast round / p2p to a
+   round without p2p content).
      bad_msg sh m0 = if m_bcast m0 then negb (sh_bcast sh (m_round m0)) || negb (m_valid m0)
                      else (sh_p2p sh (m_round m0) is NoP2P) || negb (m_valid m0)                      *)
 Theorem C04_verify_failure_blames_sender : forall fixed vh ofp self n ssid proto sh s m c,
@@ -25,19 +28,33 @@ Theorem C04_verify_failure_blames_sender : forall fixed vh ofp self n ssid proto
   h_err s = None ->
   h_err (accept vh ofp s m) = Some (c, EVerify) ->
   exists j m0, c = [j] /\ j <> h_self (accept vh ofp s m) /\ m_from m0 = j
-               /\ stored (accept vh ofp s m) m0 /\ bad_msg (h_shape (accept vh ofp s m)) m0 = true.
+               /\ stored (accept vh ofp s m) m0 /\ bad_msg (h_shape (accept vh ofp s m)) m0 = true
+               /\ same_view (accept vh ofp s m) m0 = true.
 Proof. exact verify_failure_blames_sender. Qed.
 Print Assumptions C04_verify_failure_blames_sender.
 
-(* hence a sender all of whose stored messages are valid and expected is never named by EVerify *)
+(* hence a sender whose stored messages are -- as far as they were sent under our view -- all valid and expected
+   is never named by EVerify *)
 Theorem C04_honest_sender_never_blamed_by_verify : forall fixed vh ofp self n ssid proto sh s m c j,
   reachable fixed vh ofp self n ssid proto sh s ->
   h_err s = None ->
   h_err (accept vh ofp s m) = Some (c, EVerify) ->
-  (forall m0, stored (accept vh ofp s m) m0 -> m_from m0 = j -> bad_msg (h_shape s) m0 = false) ->
+  (forall m0, stored (accept vh ofp s m) m0 -> m_from m0 = j -> same_view (accept vh ofp s m) m0 = true ->
+              bad_msg (h_shape s) m0 = false) ->
   ~ In j c.
 Proof. exact honest_sender_never_blamed_by_verify. Qed.
 Print Assumptions C04_honest_sender_never_blamed_by_verify.
+
+(* in particular a party all of whose stored messages were sent under a different view (the honest victim of an
+   equivocated broadcast, defect D7) is never named, whatever the round thinks of its payloads *)
+Theorem C04_different_view_never_blamed_by_verify : forall fixed vh ofp self n ssid proto sh s m c j,
+  reachable fixed vh ofp self n ssid proto sh s ->
+  h_err s = None ->
+  h_err (accept vh ofp s m) = Some (c, EVerify) ->
+  (forall m0, stored (accept vh ofp s m) m0 -> m_from m0 = j -> same_view (accept vh ofp s m) m0 = false) ->
+  ~ In j c.
+Proof. exact different_view_never_blamed_by_verify. Qed.
+Print Assumptions C04_different_view_never_blamed_by_verify.
 
 (* a failed view-hash comparison names nobody *)
 Theorem C04_broadcast_hash_failure_names_nobody : forall fixed vh ofp self n ssid proto sh s c,
@@ -86,3 +103,19 @@ Example C04_ex_broadcast_hash_failure :
   let s := run_api true ex_vh ex_ofp ex_start (firstn 5 ex_honest ++ [Accept (ex_b 1 3 999 true); Accept (ex_b 2 3 102 true)]) in
   reachable true ex_vh ex_ofp 0 3 7 9 ex_shape s /\ h_err s = Some ([], EBroadcastHash) /\ h_closes s = 1.
 Proof. split; [eexists; reflexivity|]. vm_compute. repeat split. Qed.
+
+(* regression for D7 (equivocation): party 1 computed its round-3 broadcast under a different round-2 view
+   (digest 999, ours is 102), so under OUR view its payload does not verify ([m_valid = false]).  The handler
+   as found verified first and named party 1; the repaired handler compares the view first and names nobody --
+   on arrival, and likewise when the message was queued before round 3 was reached. *)
+Example C04_ex_equivocation_victim_not_blamed :
+  let s := run_api true ex_vh ex_ofp ex_start (firstn 5 ex_honest) in
+  h_cur s = 3 /\ h_err (accept ex_vh ex_ofp s (ex_b 1 3 999 false)) = Some ([], EBroadcastHash).
+Proof. vm_compute. repeat split. Qed.
+
+Example C04_ex_equivocation_victim_not_blamed_queued :
+  let s := run_api true ex_vh ex_ofp ex_start
+             [Accept (ex_b 1 3 999 false); Accept (ex_b 1 2 0 true); Accept (ex_p 1 2 0 true); Accept (ex_p 2 2 0 true); Drain 3] in
+  h_err s = None /\ h_cur s = 2
+  /\ h_err (accept ex_vh ex_ofp s (ex_b 2 2 0 true)) = Some ([], EBroadcastHash).
+Proof. vm_compute. repeat split. Qed.
